@@ -150,8 +150,16 @@ def s3(ck, an):
     allocation_filters(Renamed(ck, "S3:"), an, "alloc")
     # holdings are keyed by the contract of the trade, which comes from an allocation key
     ft = an.fa("Broker.transact")
-    keys = {ast.unparse(e.sub) for e in ft.effects() if e.attr in ("_holdings_quantity", "_holdings_margins") and e.sub is not None}
-    ck.check(keys <= {"trade.contract", "self.base_currency"}, "ARGFLOW", "S3.ledger-keys", ft.f.short, ft.f.loc, "ledgers are keyed by the traded (static) contract or the base currency", f"ledger keys: {sorted(keys)}",
+    from sa.forward import Forward
+    fwt = Forward(an, ft).run()      # new helpers are evaluated in place, so the keys are those of the ledgers whoever writes them
+    tp = ft.f.params[1]
+    keys = set()
+    import re as _re
+    for k in fwt.st.slots:
+        m_ = _re.match(r"^self\._holdings_(quantity|margins)(@v\d+)?\[(.*)\]$", k)
+        if m_:
+            keys.add(m_.group(3))
+    ck.check(bool(keys) and keys <= {f"{tp}.contract", "self.base_currency"}, "ARGFLOW", "S3.ledger-keys", ft.f.short, ft.f.loc, "ledgers are keyed by the traded (static) contract or the base currency", f"ledger keys: {sorted(keys)}",
              construct="ledger keys")
     # the chain never enters the book / ledger as itself: no __hash__ override that hides the lead
     fc = an.prog.cls("FutureChain")
